@@ -799,4 +799,365 @@ theorem commandService_ubStep (D : Desc) (s : St) (i : SvcIn) (hn : 0 < D.comman
   · exact startFormatTest_ubStep D s (h.cmd (by simp [NeedsCmd, hs]))
   · exact printCmdList_ubStep D s hs h
 
+/-! ### the unsolicited machine -/
+
+/-- states in which the unsolicited machine dereferences its command (now or after a flush) -/
+def NeedsUCmd (s : St) : Prop :=
+  s.ustate = .formatReadArgs ∨ s.ustate = .formatTestArgs ∨ s.ustate = .readLoop ∨ s.ustate = .testLoop ∨
+  s.ustate = .afterFlushFormatRead ∨ s.ustate = .afterFlushFormatTest ∨
+  ((s.ustate = .flushWait ∨ s.ustate = .flushWrite) ∧ (s.uwriteStateAfter = .fmtRead ∨ s.uwriteStateAfter = .fmtTest))
+
+structure UbInvU (D : Desc) (s : St) : Prop where
+  cmd : NeedsUCmd s → s.ucmd.isSome
+  var : (s.ustate = .formatReadArgs ∨ s.ustate = .formatTestArgs) → s.uindex < (D.cmdD s.ucmd).varNum
+  pos : (s.ustate = .formatReadArgs ∨ s.ustate = .formatTestArgs) → s.uposition ≤ D.unsCap
+
+def UbStepU (D : Desc) (s s' : St) : Prop := s'.ub = s.ub ∧ UbInvU D s'
+
+theorem UbInvU.of_idle {D : Desc} {s : St} (h : s.ustate = .idle) : UbInvU D s :=
+  ⟨by simp [NeedsUCmd, h], by simp [h], by simp [h]⟩
+
+theorem unsolicitedResetState_ubStepU (D : Desc) (s : St) : UbStepU D s (unsolicitedResetState s) :=
+  ⟨rfl, .of_idle rfl⟩
+
+theorem startFormatRead_ubStepU (D : Desc) (s : St) (hc : s.ucmd.isSome = true) : UbStepU D s (startFormatRead D s .uns) := by
+  have p0 : (s.setPos .uns 0).pos .uns ≤ D.capOf .uns := by simp [St.setPos, St.pos]
+  simp only [startFormatRead, St.cmdOf, setPos_frame, hc, chkUb_true, endError]
+  have pa := printAll_posUb D (s.setPos .uns 0) .uns [(D.cmdD s.ucmd).name, [61]] p0
+  have fr := printAll_frame D .uns [(D.cmdD s.ucmd).name, [61]] (s.setPos .uns 0)
+  generalize printAll D (s.setPos .uns 0) .uns [(D.cmdD s.ucmd).name, [61]] = r at pa fr
+  obtain ⟨t, ok⟩ := r
+  simp only [PosUb, St.pos, Desc.capOf] at pa
+  simp only [SameCtlNP, SameU', setPos_frame] at fr
+  have hub : t.ub = s.ub := by rw [pa.1]; simp
+  have hcmd : t.ucmd = s.ucmd := fr.1.2.1.2.2.1
+  (repeat' split)
+  · exact ⟨hub, .of_idle rfl⟩
+  · rename_i hva
+    refine ⟨hub, ⟨fun _ => by simp [hcmd, hc], fun _ => ?_, fun _ => pa.2⟩⟩
+    simp only [hcmd]
+    exact varsAccessible_pos _ _ hva
+  · exact ⟨hub, .of_idle rfl⟩
+  · exact ⟨by simp [setStateRL, hub], ⟨fun _ => by simp [setStateRL, hcmd, hc], by simp [setStateRL], by simp [setStateRL]⟩⟩
+
+theorem printResponseTest_ubU (D : Desc) (s : St) (hc : s.ucmd.isSome = true) (hp : s.uposition ≤ D.unsCap) :
+    (printResponseTest D s .uns).1.ub = s.ub ∧ (printResponseTest D s .uns).1.ucmd = s.ucmd ∧
+    ((printResponseTest D s .uns).2 = true →
+        (printResponseTest D s .uns).1.ustate = .testLoop ∨
+        ((printResponseTest D s .uns).1.ustate = .flushWait ∧ (printResponseTest D s .uns).1.uwriteStateAfter = .ok)) := by
+  simp only [printResponseTest, St.cmdOf, hc, chkUb_true]
+  cases hd : (D.cmdD s.ucmd).desc with
+  | none =>
+    simp only [Bool.not_true, Bool.false_eq_true, if_false]
+    split
+    · simp [setStateTL]
+    · simp [startFlush, St.emit]
+  | some d =>
+    simp only
+    have pa := printAll_posUb D s .uns [nlStr s, d] (by simpa [St.pos, Desc.capOf] using hp)
+    have fr := printAll_frame D .uns [nlStr s, d] s
+    generalize printAll D s .uns [nlStr s, d] = r at pa fr
+    obtain ⟨t, ok⟩ := r
+    simp only [PosUb] at pa
+    simp only [SameCtlNP, SameU'] at fr
+    have hcmd : t.ucmd = s.ucmd := fr.1.2.1.2.2.1
+    cases ok
+    · simp [pa.1, hcmd]
+    · simp only [Bool.not_true, Bool.false_eq_true, if_false]
+      split
+      · simp [setStateTL, pa.1, hcmd]
+      · simp [startFlush, St.emit, pa.1, hcmd]
+
+theorem startFormatTest_ubStepU (D : Desc) (s : St) (hc : s.ucmd.isSome = true) : UbStepU D s (startFormatTest D s .uns) := by
+  have p0 : (s.setPos .uns 0).pos .uns ≤ D.capOf .uns := by simp [St.setPos, St.pos]
+  simp only [startFormatTest, St.cmdOf, setPos_frame, hc, chkUb_true, endError]
+  have pa := printAll_posUb D (s.setPos .uns 0) .uns [(D.cmdD s.ucmd).name, [61]] p0
+  have fr := printAll_frame D .uns [(D.cmdD s.ucmd).name, [61]] (s.setPos .uns 0)
+  generalize printAll D (s.setPos .uns 0) .uns [(D.cmdD s.ucmd).name, [61]] = r at pa fr
+  obtain ⟨t, ok⟩ := r
+  simp only [PosUb, St.pos, Desc.capOf] at pa
+  simp only [SameCtlNP, SameU', setPos_frame] at fr
+  have hub : t.ub = s.ub := by rw [pa.1]; simp
+  have hcmd : t.ucmd = s.ucmd := fr.1.2.1.2.2.1
+  (repeat' split)
+  · exact ⟨hub, .of_idle rfl⟩
+  · rename_i hva
+    simp only [Bool.and_eq_true, decide_eq_true_eq] at hva
+    exact ⟨hub, ⟨fun _ => by simp [hcmd, hc], fun _ => by simp only [hcmd]; exact hva.2, fun _ => pa.2⟩⟩
+  · have pr := printResponseTest_ubU D t (by rw [hcmd]; exact hc) pa.2
+    rename_i hok
+    rcases pr.2.2 hok with h | ⟨h1, h2⟩
+    · exact ⟨pr.1.trans hub, ⟨fun _ => by rw [pr.2.1, hcmd]; exact hc, by simp [h], by simp [h]⟩⟩
+    · exact ⟨pr.1.trans hub, ⟨by simp [NeedsUCmd, h1, h2], by simp [h1], by simp [h1]⟩⟩
+  · have pr := printResponseTest_ubU D t (by rw [hcmd]; exact hc) pa.2
+    exact ⟨pr.1.trans hub, .of_idle rfl⟩
+
+theorem nextFormatVar_ubU (D : Desc) (s : St) (hp : s.uposition ≤ D.unsCap) :
+    (nextFormatVar D s .uns).1.ub = s.ub ∧
+    ((nextFormatVar D s .uns).2 = false →
+        (nextFormatVar D s .uns).1.ustate = s.ustate ∧ (nextFormatVar D s .uns).1.ucmd = s.ucmd ∧
+        (nextFormatVar D s .uns).1.uposition = s.uposition ∧ (nextFormatVar D s .uns).1.uwriteStateAfter = s.uwriteStateAfter) ∧
+    ((nextFormatVar D s .uns).2 = true →
+        (nextFormatVar D s .uns).1.ustate = .idle ∨
+        ((nextFormatVar D s .uns).1.ustate = s.ustate ∧ (nextFormatVar D s .uns).1.ucmd = s.ucmd ∧
+         (nextFormatVar D s .uns).1.uindex = s.uindex + 1 ∧ s.uindex + 1 < (D.cmdD s.ucmd).varNum ∧
+         (nextFormatVar D s .uns).1.uposition ≤ D.unsCap)) := by
+  simp only [nextFormatVar, St.cmdOf, St.idx, St.setIdx, St.pos, Desc.capOf]
+  by_cases hlt : s.uindex + 1 < (D.cmdD s.ucmd).varNum
+  · simp only [hlt, if_true]
+    by_cases hpos : s.uposition ≥ D.unsCap
+    · simp only [hpos, if_true]
+      exact ⟨by simp [endError, unsolicitedResetState], fun h => Bool.noConfusion h, fun _ => Or.inl (by simp [endError, unsolicitedResetState])⟩
+    · simp only [hpos, if_false]
+      have hpos' : s.uposition < D.unsCap := by omega
+      have sb := (setB_fault D ({ s with uindex := s.uindex + 1 } : St) .uns s.uposition 44).1 hpos'
+      refine ⟨by simpa [St.setPos] using sb.2, fun h => Bool.noConfusion h, fun _ => Or.inr ?_⟩
+      cases hb : D.unsBuf.isSome <;>
+        simp [St.setPos, setB, show s.uposition < D.capOf .uns from hpos', hb] <;> omega
+  · simp only [hlt, if_false]
+    simp
+
+theorem varReadCb_uns_keep (D : Desc) (s : St) (v : VarD) (i : SvcIn) :
+    (varReadCb D s .uns v i).1.ustate = s.ustate ∧ (varReadCb D s .uns v i).1.ucmd = s.ucmd ∧
+    (varReadCb D s .uns v i).1.uindex = s.uindex ∧ (varReadCb D s .uns v i).1.uposition = s.uposition ∧
+    (varReadCb D s .uns v i).1.uwriteStateAfter = s.uwriteStateAfter := by
+  simp only [varReadCb]; split
+  · have a := applyNested_frame D .uns false i.vu.acts (s.emit (.varcb .uns ((s.cmdOf .uns).getD 0) (s.idx .uns) false 0 i.vu.ret))
+    have c := (applyNested_noedit_pos D .uns i.vu.acts (s.emit (.varcb .uns ((s.cmdOf .uns).getD 0) (s.idx .uns) false 0 i.vu.ret))).2
+    simp_all
+  · simp
+
+theorem formatVar_uns_keep (D : Desc) (s : St) (v : VarD) :
+    (formatVar D s .uns v).1.ustate = s.ustate ∧ (formatVar D s .uns v).1.ucmd = s.ucmd ∧
+    (formatVar D s .uns v).1.uindex = s.uindex ∧ (formatVar D s .uns v).1.uwriteStateAfter = s.uwriteStateAfter := by
+  refine ⟨(formatVar_state D s .uns v).2, ?_, ?_, ?_⟩ <;> (unfold formatVar; crunch)
+
+theorem formatInfoType_uns_keep (D : Desc) (s : St) (v : VarD) :
+    (formatInfoType D s .uns v).1.ustate = s.ustate ∧ (formatInfoType D s .uns v).1.ucmd = s.ucmd ∧
+    (formatInfoType D s .uns v).1.uindex = s.uindex ∧ (formatInfoType D s .uns v).1.uwriteStateAfter = s.uwriteStateAfter := by
+  refine ⟨?_, ?_, ?_, ?_⟩ <;> (unfold formatInfoType; crunch)
+
+theorem formatReadArgs_ubStepU (D : Desc) (s : St) (i : SvcIn) (hs : s.ustate = .formatReadArgs) (h : UbInvU D s) :
+    UbStepU D s (formatReadArgs D s .uns i).1 := by
+  have hc := h.cmd (by simp [NeedsUCmd, hs])
+  have hv := h.var (Or.inl hs)
+  have hp := h.pos (Or.inl hs)
+  simp only [formatReadArgs, St.cmdOf, St.idx, hc, chkUb_true, chkUb_ctl, hv, decide_true, endError]
+  generalize (D.cmdD s.ucmd).varAt s.uindex = v
+  have k1 := varReadCb_uns_keep D s v i
+  have u1 := varReadCb_ub D s .uns v i
+  generalize varReadCb D s .uns v i = r1 at k1 u1
+  obtain ⟨s1, fail⟩ := r1
+  simp only at k1 u1
+  cases fail
+  · simp only [Bool.false_eq_true, if_false]
+    have hp1 : s1.pos .uns ≤ D.capOf .uns := by simpa [St.pos, Desc.capOf, k1.2.2.2.1] using hp
+    have k2 := formatVar_uns_keep D s1 v
+    have u2 := formatVar_posUb D s1 .uns v hp1
+    generalize formatVar D s1 .uns v = r2 at k2 u2
+    obtain ⟨s2, ok⟩ := r2
+    simp only [PosUb, St.pos, Desc.capOf] at k2 u2
+    have hub2 : s2.ub = s.ub := u2.1.trans u1
+    cases ok
+    · exact ⟨hub2, .of_idle rfl⟩
+    · simp only [Bool.not_true, Bool.false_eq_true, if_false]
+      have n := nextFormatVar_ubU D s2 u2.2
+      generalize nextFormatVar D s2 .uns = r3 at n
+      obtain ⟨s3, more⟩ := r3
+      simp only at n
+      have hst2 : s2.ustate = .formatReadArgs := by rw [k2.1, k1.1, hs]
+      have hcmd2 : s2.ucmd = s.ucmd := by rw [k2.2.1, k1.2.1]
+      have hidx2 : s2.uindex = s.uindex := by rw [k2.2.2.1, k1.2.2.1]
+      cases more
+      · simp only [Bool.false_eq_true, if_false]
+        have m := n.2.1 rfl
+        split
+        · exact ⟨by simpa [setStateRL] using n.1.trans hub2,
+            ⟨fun _ => by simp [setStateRL, m.2.1, hcmd2, hc], by simp [setStateRL], by simp [setStateRL]⟩⟩
+        · exact ⟨by simpa [startFlush, St.emit] using n.1.trans hub2,
+            ⟨by simp [NeedsUCmd, startFlush, St.emit], by simp [startFlush, St.emit], by simp [startFlush, St.emit]⟩⟩
+      · simp only [if_true]
+        rcases n.2.2 rfl with a1 | ⟨b1, b2, b3, b4, b5⟩
+        · exact ⟨n.1.trans hub2, .of_idle a1⟩
+        · exact ⟨n.1.trans hub2, ⟨fun _ => by rw [b2, hcmd2]; exact hc,
+            fun _ => by rw [b3, b2, hcmd2, hidx2]; rw [hcmd2, hidx2] at b4; exact b4, fun _ => b5⟩⟩
+  · exact ⟨u1, .of_idle rfl⟩
+
+theorem formatTestArgs_ubStepU (D : Desc) (s : St) (hs : s.ustate = .formatTestArgs) (h : UbInvU D s) :
+    UbStepU D s (formatTestArgs D s .uns).1 := by
+  have hc := h.cmd (by simp [NeedsUCmd, hs])
+  have hv := h.var (Or.inr hs)
+  have hp := h.pos (Or.inr hs)
+  simp only [formatTestArgs, St.cmdOf, St.idx, hc, chkUb_true, chkUb_ctl, hv, decide_true, endError]
+  generalize (D.cmdD s.ucmd).varAt s.uindex = v
+  have hp0 : s.pos .uns ≤ D.capOf .uns := by simpa [St.pos, Desc.capOf] using hp
+  have k2 := formatInfoType_uns_keep D s v
+  have u2 := formatInfoType_posUb D s .uns v hp0
+  generalize formatInfoType D s .uns v = r2 at k2 u2
+  obtain ⟨s2, ok⟩ := r2
+  simp only [PosUb, St.pos, Desc.capOf] at k2 u2
+  cases ok
+  · exact ⟨u2.1, .of_idle rfl⟩
+  · simp only [Bool.not_true, Bool.false_eq_true, if_false]
+    have n := nextFormatVar_ubU D s2 u2.2
+    generalize nextFormatVar D s2 .uns = r3 at n
+    obtain ⟨s3, more⟩ := r3
+    simp only at n
+    cases more
+    · simp only [Bool.false_eq_true, if_false]
+      have m := n.2.1 rfl
+      have hc3 : s3.ucmd.isSome = true := by rw [m.2.1, k2.2.1]; exact hc
+      have pr := printResponseTest_ubU D s3 hc3 (by rw [m.2.2.1]; exact u2.2)
+      have hub3 : (printResponseTest D s3 .uns).1.ub = s.ub := pr.1.trans (n.1.trans u2.1)
+      split
+      · rename_i hok
+        rcases pr.2.2 hok with g | ⟨g1, g2⟩
+        · exact ⟨hub3, ⟨fun _ => by rw [pr.2.1]; exact hc3, by simp [g], by simp [g]⟩⟩
+        · exact ⟨hub3, ⟨by simp [NeedsUCmd, g1, g2], by simp [g1], by simp [g1]⟩⟩
+      · exact ⟨hub3, .of_idle rfl⟩
+    · simp only [if_true]
+      rcases n.2.2 rfl with a1 | ⟨b1, b2, b3, b4, b5⟩
+      · exact ⟨n.1.trans u2.1, .of_idle a1⟩
+      · exact ⟨n.1.trans u2.1, ⟨fun _ => by rw [b2, k2.2.1]; exact hc,
+          fun _ => by rw [b3, b2, k2.2.1, k2.2.2.1]; rw [k2.2.1, k2.2.2.1] at b4; exact b4, fun _ => b5⟩⟩
+
+def InLoopU (t : St) : Prop := t.ucmd.isSome = true ∧ (t.ustate = .readLoop ∨ t.ustate = .testLoop)
+
+theorem InLoopU.ubInv {D : Desc} {t : St} (h : InLoopU t) : UbInvU D t := by
+  obtain ⟨hc, hs⟩ := h
+  rcases hs with hs | hs <;> exact ⟨fun _ => hc, by simp [hs], by simp [hs]⟩
+
+theorem doCall_ubStepU (D : Desc) (t : St) (c : Call) (h : InLoopU t) (hq : UnsCallQ c) (hr : c ≠ .startFlush .reset ∧ c ≠ .startFlush .printCmd) :
+    UbStepU D t (doCall D .uns t c) ∧ (InLoopU (doCall D .uns t c) ∨ (doCall D .uns t c).ustate ≠ t.ustate ∨ True) := by
+  refine ⟨?_, Or.inr (Or.inr trivial)⟩
+  cases c with
+  | ackOk => simp [UnsCallQ] at hq
+  | ackError => simp [UnsCallQ] at hq
+  | startPrintCmdList => simp [UnsCallQ] at hq
+  | enableHold =>
+    have e : (doCall D .uns t .enableHold).ucmd = t.ucmd ∧ (doCall D .uns t .enableHold).ustate = t.ustate := by simp [doCall, enableHoldState]
+    exact ⟨by simp [doCall, enableHoldState], InLoopU.ubInv ⟨by rw [e.1]; exact h.1, by rw [e.2]; exact h.2⟩⟩
+  | endOk => exact ⟨by simp [doCall, endOk, unsolicitedResetState], .of_idle (by simp [doCall, endOk, unsolicitedResetState])⟩
+  | endError => exact ⟨by simp [doCall, endError, unsolicitedResetState], .of_idle (by simp [doCall, endError, unsolicitedResetState])⟩
+  | startFlush a =>
+    cases a with
+    | reset => exact absurd rfl hr.1
+    | printCmd => exact absurd rfl hr.2
+    | ok => exact ⟨by simp [doCall, startFlush, St.emit], ⟨by simp [doCall, startFlush, St.emit, NeedsUCmd], by simp [doCall, startFlush, St.emit], by simp [doCall, startFlush, St.emit]⟩⟩
+    | fmtRead => exact ⟨by simp [doCall, startFlush, St.emit], ⟨fun _ => by simpa [doCall, startFlush, St.emit] using h.1, by simp [doCall, startFlush, St.emit], by simp [doCall, startFlush, St.emit]⟩⟩
+    | fmtTest => exact ⟨by simp [doCall, startFlush, St.emit], ⟨fun _ => by simpa [doCall, startFlush, St.emit] using h.1, by simp [doCall, startFlush, St.emit], by simp [doCall, startFlush, St.emit]⟩⟩
+  | startFormatRead => exact startFormatRead_ubStepU D t h.1
+  | startFormatTest => exact startFormatTest_ubStepU D t h.1
+  | holdExit ok =>
+    have e : (doCall D .uns t (.holdExit ok)).ucmd = t.ucmd ∧ (doCall D .uns t (.holdExit ok)).ustate = t.ustate := by
+      simp [doCall, holdExit]; split <;> simp
+    exact ⟨by simp [doCall], InLoopU.ubInv ⟨by rw [e.1]; exact h.1, by rw [e.2]; exact h.2⟩⟩
+
+structure ArmUbU (D : Desc) (t : St) (l : List Call) : Prop where
+  step : UbStepU D t (doCalls D .uns t l)
+
+theorem tables_ubU (D : Desc) (t : St) (ret : Int) (h : InLoopU t) :
+    ArmUbU D t (Gen.process_read_loop ret .uns) ∧ ArmUbU D t (Gen.process_test_loop ret .uns) := by
+  have hx : ∀ ok, InLoopU (doCall D .uns t (.holdExit ok)) ∧ (doCall D .uns t (.holdExit ok)).ub = t.ub := by
+    intro ok
+    have e : (doCall D .uns t (.holdExit ok)).ucmd = t.ucmd ∧ (doCall D .uns t (.holdExit ok)).ustate = t.ustate := by
+      simp [doCall, holdExit]; split <;> simp
+    exact ⟨⟨by rw [e.1]; exact h.1, by rw [e.2]; exact h.2⟩, by simp [doCall]⟩
+  have h0 : ArmUbU D t [] := ⟨⟨rfl, h.ubInv⟩⟩
+  have h1 : ∀ c, UnsCallQ c → (c ≠ .startFlush .reset ∧ c ≠ .startFlush .printCmd) → ArmUbU D t [c] := by
+    intro c hq hc; exact ⟨by simp only [doCalls]; exact (doCall_ubStepU D t c h hq hc).1⟩
+  have h2 : ∀ ok c, UnsCallQ c → (c ≠ .startFlush .reset ∧ c ≠ .startFlush .printCmd) → ArmUbU D t [.holdExit ok, c] := by
+    intro ok c hq hc
+    refine ⟨?_⟩
+    simp only [doCalls]
+    have := (doCall_ubStepU D _ c (hx ok).1 hq hc).1
+    exact ⟨this.1.trans (hx ok).2, this.2⟩
+  refine ⟨?_, ?_⟩
+  · unfold Gen.process_read_loop
+    (repeat' split) <;> first | contradiction | exact h0 | exact h2 _ _ (by simp [UnsCallQ]) (by decide) | exact h1 _ (by simp [UnsCallQ]) (by decide)
+  · unfold Gen.process_test_loop
+    (repeat' split) <;> first | contradiction | exact h0 | exact h2 _ _ (by simp [UnsCallQ]) (by decide) | exact h1 _ (by simp [UnsCallQ]) (by decide)
+
+theorem loops_ubStepU (D : Desc) (s : St) (i : SvcIn) (h : UbInvU D s) :
+    (s.ustate = .readLoop → UbStepU D s (processReadLoop D s .uns i).1) ∧
+    (s.ustate = .testLoop → UbStepU D s (processTestLoop D s .uns i).1) := by
+  have key : ∀ (ev : Ev), s.ucmd.isSome = true → (s.ustate = .readLoop ∨ s.ustate = .testLoop) →
+      InLoopU (applyNested D .uns true (s.emit ev) i.hu.acts) ∧ (applyNested D .uns true (s.emit ev) i.hu.acts).ub = s.ub := by
+    intro ev hc hst
+    have a := applyNested_frame D .uns true i.hu.acts (s.emit ev)
+    simp only [SameU'] at a
+    have a1 : (applyNested D .uns true (s.emit ev) i.hu.acts).ucmd = s.ucmd := a.2.1.2.2.1
+    have a2 : (applyNested D .uns true (s.emit ev) i.hu.acts).ustate = s.ustate := a.2.1.1
+    exact ⟨⟨by rw [a1]; exact hc, by rw [a2]; exact hst⟩, by simp⟩
+  refine ⟨?_, ?_⟩ <;> intro hs
+  · have hc := h.cmd (by simp [NeedsUCmd, hs])
+    simp only [processReadLoop, St.cmdOf, hc, chkUb_true]
+    have k := key (.handler .uns .read (s.ucmd.getD 0) (cstr D s .uns).1 (cstr D s .uns).2 (s.pos .uns) (D.capOf .uns) i.hu.ret) hc (Or.inl hs)
+    have t := (tables_ubU D _ i.hu.ret k.1).1.step
+    exact ⟨t.1.trans k.2, t.2⟩
+  · have hc := h.cmd (by simp [NeedsUCmd, hs])
+    simp only [processTestLoop, St.cmdOf, hc, chkUb_true]
+    have k := key (.handler .uns .test (s.ucmd.getD 0) (cstr D s .uns).1 (cstr D s .uns).2 (s.pos .uns) (D.capOf .uns) i.hu.ret) hc (Or.inr hs)
+    have t := (tables_ubU D _ i.hu.ret k.1).2.step
+    exact ⟨t.1.trans k.2, t.2⟩
+
+theorem checkUnsolicitedBuffers_ubStepU (D : Desc) (s : St) (hs : s.ustate = .idle) : UbStepU D s (checkUnsolicitedBuffers D s) := by
+  unfold checkUnsolicitedBuffers
+  split
+  · exact ⟨rfl, .of_idle hs⟩
+  · simp only
+    have hub : (ringPop D s).ub = s.ub := by simp [ringPop]
+    have hst : (ringPop D s).ustate = s.ustate := by simp [ringPop]
+    (repeat' split)
+    · have := startFormatRead_ubStepU D (({ ringPop D s with ucmd := some (ringFront s).1, ucmdType := (ringFront s).2 } : St).emit (.pop (ringFront s).1 (ringFront s).2)) (by simp [St.emit])
+      exact ⟨this.1.trans (by simp [St.emit, hub]), this.2⟩
+    · have := startFormatTest_ubStepU D (({ ringPop D s with ucmd := some (ringFront s).1, ucmdType := (ringFront s).2 } : St).emit (.pop (ringFront s).1 (ringFront s).2)) (by simp [St.emit])
+      exact ⟨this.1.trans (by simp [St.emit, hub]), this.2⟩
+    · exact ⟨by simp [St.emit, hub], .of_idle (by simp [St.emit, hst, hs])⟩
+
+theorem unsolicitedProcessIoWrite_ubStepU (D : Desc) (s : St) (i : SvcIn) (hs : s.ustate = .flushWrite) (h : UbInvU D s) :
+    UbStepU D s (unsolicitedProcessIoWrite D s i).1 := by
+  simp only [unsolicitedProcessIoWrite]
+  generalize writeByte D s .uns = wb
+  obtain ⟨ch, inb⟩ := wb
+  have keep : ∀ t : St, t.ustate = s.ustate → t.uwriteStateAfter = s.uwriteStateAfter → t.ucmd = s.ucmd → UbInvU D t := by
+    intro t h1 h2 h4
+    exact ⟨fun hh => by rw [h4]; exact h.cmd (by simp only [NeedsUCmd] at hh ⊢; rw [← h1, ← h2]; exact hh), by simp [h1, hs], by simp [h1, hs]⟩
+  simp only
+  (repeat' split)
+  · exact ⟨by simp, keep _ (by simp) (by simp) (by simp)⟩
+  · exact ⟨by simp, keep _ (by simp) (by simp) (by simp)⟩
+  · refine ⟨by simp [St.emit], ?_⟩
+    cases ha : s.uwriteStateAfter with
+    | reset => exact ⟨by simp [St.emit, ha, After.toU, NeedsUCmd], by simp [St.emit, ha, After.toU], by simp [St.emit, ha, After.toU]⟩
+    | ok => exact ⟨by simp [St.emit, ha, After.toU, NeedsUCmd], by simp [St.emit, ha, After.toU], by simp [St.emit, ha, After.toU]⟩
+    | fmtRead => exact ⟨fun _ => by simpa [St.emit] using h.cmd (by simp [NeedsUCmd, hs, ha]), by simp [St.emit, ha, After.toU], by simp [St.emit, ha, After.toU]⟩
+    | fmtTest => exact ⟨fun _ => by simpa [St.emit] using h.cmd (by simp [NeedsUCmd, hs, ha]), by simp [St.emit, ha, After.toU], by simp [St.emit, ha, After.toU]⟩
+    | printCmd => exact ⟨by simp [St.emit, ha, After.toU, NeedsUCmd], by simp [St.emit, ha, After.toU], by simp [St.emit, ha, After.toU]⟩
+  · exact ⟨by simp, keep _ (by simp) (by simp) (by simp)⟩
+  · exact ⟨by simp [St.emit], keep _ (by simp [St.emit]) (by simp [St.emit]) (by simp [St.emit])⟩
+  · exact ⟨by simp [St.emit], keep _ (by simp [St.emit]) (by simp [St.emit]) (by simp [St.emit])⟩
+
+/-- **One step of the unsolicited machine performs no undefined operation and keeps its index
+discipline.** -/
+theorem unsolicitedEventsService_ubStepU (D : Desc) (s : St) (i : SvcIn) (h : UbInvU D s) :
+    UbStepU D s (unsolicitedEventsService D s i).1 := by
+  unfold unsolicitedEventsService
+  split <;> rename_i hs
+  · exact checkUnsolicitedBuffers_ubStepU D s hs
+  · exact formatReadArgs_ubStepU D s i hs h
+  · exact formatTestArgs_ubStepU D s hs h
+  · exact (loops_ubStepU D s i h).1 hs
+  · exact (loops_ubStepU D s i h).2 hs
+  · simp only [unsolicitedProcessIoWriteWait]
+    split
+    · refine ⟨rfl, ⟨fun hn => h.cmd ?_, by simp, by simp⟩⟩
+      simp only [NeedsUCmd, hs] at hn ⊢; simp at hn ⊢; exact hn
+    · exact ⟨rfl, h⟩
+  · exact unsolicitedProcessIoWrite_ubStepU D s i hs h
+  · exact unsolicitedResetState_ubStepU D s
+  · exact unsolicitedResetState_ubStepU D s
+  · exact startFormatRead_ubStepU D s (h.cmd (by simp [NeedsUCmd, hs]))
+  · exact startFormatTest_ubStepU D s (h.cmd (by simp [NeedsUCmd, hs]))
+
 end Cat
